@@ -10,6 +10,8 @@ import (
 
 	"github.com/gnolang/gno/tm2/pkg/bptree"
 	"github.com/gnolang/gno/tm2/pkg/db/memdb"
+
+	"verif/engine/vk"
 )
 
 // Scenario = start state + operation alphabet + depth bound of one exhaustive BFS.
@@ -29,6 +31,10 @@ type Scenario struct {
 	Depth    int
 	Probe    *Probe // nil = every universe key gets point lookups
 	Bounds   []int  // range-iterator bounds (universe indexes, -1 = nil)
+	Hidden   bool   // merge states only if the persisted orphan lists and the size of the uncommitted batch agree too
+	Tail     bool   // run the deterministic save/save/prune-every-prefix/reopen continuation (tail.go) from every new state …
+	TailAbandon bool // … and after EVERY Rollback / LoadVersion(current version) transition, new state or not (a session-abandoning op is expected to lead back to a known state: exactly where a leftover would be merged away)
+	Events   bool   // classify the rebalancing steps of every Set/Remove (events.go)
 
 	baseDB    *memdb.MemDB
 	baseModel *Model
@@ -160,11 +166,35 @@ func (s *Sys) ShapeOfVersion(v int64) string {
 // of the working tree, and size + full ordered contents + root hash of every retained version and of the open
 // snapshot. With deep (every NEW state): all read APIs on the retained versions and the snapshot as well.
 func Observe(s *Sys, m *Model, probe *Probe, deep bool) string {
+	if deep {
+		return ObserveMode(s, m, probe, ObsDeep)
+	}
+	return ObserveMode(s, m, probe, ObsLight)
+}
+
+// Observer strengths.
+const (
+	ObsContents = iota // Size + full ordered contents (+ root hash of saved versions) of the working tree, every retained version, the open snapshot
+	ObsLight           // + every read API on the working tree
+	ObsDeep            // + every read API on every retained version and the snapshot; by-index lookups for EVERY index (Probe.AllIdx)
+)
+
+func ObserveMode(s *Sys, m *Model, probe *Probe, mode int) string {
+	deep := mode == ObsDeep
+	if probe != nil && probe.AllIdx && !deep {
+		probe = &Probe{Keys: probe.Keys}
+	}
 	if got := s.T.Version(); got != m.Ver {
 		return fmt.Sprintf("Version()=%d, model %d", got, m.Ver)
 	}
 	if !m.Poisoned {
-		if d := CheckReads(m, m.Work, s.T, probe); d != "" {
+		var d string
+		if mode == ObsContents {
+			d = CheckContents(m, m.Work, s.T)
+		} else {
+			d = CheckReads(m, m.Work, s.T, probe)
+		}
+		if d != "" {
 			return "working tree: " + d
 		}
 	}
@@ -241,6 +271,8 @@ type Stats struct {
 	Exhaustive  bool
 	Ranges      int64
 	DeepChecks  int64
+	Tails       int64 // continuations run (tail.go)
+	TailTrans   int64 // transitions executed inside continuations (included in Transitions)
 	Underfull   int64
 }
 
@@ -290,7 +322,7 @@ func lessPath(a, b []Op) bool {
 
 // Digest is the state-merging key: model state AND implementation structure (working tree shape with record
 // identities, dirty marks and in-memory child pointers; record-identity shape of every retained version; session flags).
-func Digest(s *Sys, m *Model, workShape string) [16]byte {
+func Digest(s *Sys, m *Model, workShape string, hidden bool) [16]byte {
 	h := sha256.New()
 	h.Write([]byte(m.Canon()))
 	fmt.Fprintf(h, "|cfg%d%v|", s.Cfg.Cache, s.Cfg.Fast)
@@ -301,6 +333,9 @@ func Digest(s *Sys, m *Model, workShape string) [16]byte {
 	}
 	nonce, orph, pois, pend, clean := bptree.VerifSession(s.T)
 	fmt.Fprintf(h, "|s%v,%d,%v,%v,%v", nonce > 0, orph, pois, pend > 0, clean)
+	if hidden {
+		h.Write([]byte(HiddenState(s)))
+	}
 	var out [16]byte
 	copy(out[:], h.Sum(nil))
 	return out
@@ -319,7 +354,7 @@ func Explore(sink Sink, sc *Scenario, hook Hook) Stats {
 	}
 	visited := newDigestSet()
 	shapesSeen := newDigestSet()
-	var trans, ranges, deep, underfull atomic.Int64
+	var trans, ranges, deep, underfull, tails, tailTrans atomic.Int64
 
 	var vmu sync.Mutex
 	var viols []violation
@@ -367,30 +402,128 @@ func Explore(sink Sink, sc *Scenario, hook Hook) Stats {
 		return ""
 	}
 
-	// level 0
-	s0, m0, d0 := sc.Start()
-	if d0 != "" {
-		report(nil, "start state: "+d0)
-	} else if d := Observe(s0, m0, sc.Probe, true); d != "" {
-		report(nil, "start state: "+d)
-	} else {
-		w0, err := bptree.VerifDumpWorking(s0.T)
+	var nmu [shards]sync.Mutex
+	var next [shards]map[[16]byte][]Op
+
+	// successor executes ONE transition (op appended to an already replayed path) with all its checks. It returns the
+	// history to blame if it panics half-way (the path plus the tail ops executed so far).
+	successor := func(s *Sys, m *Model, full []Op, op Op, blame *[]Op) {
+		trans.Add(1)
+		sink.Eval()
+		wasPruneOK := op.K == OpPrune && m.PruneShouldSucceed(int64(op.A))
+		abandons := op.K == OpRollback || op.K == OpLoadVer && int64(op.A) == m.Ver // ops that drop the session and stay on the same version
+		var before *bptree.VerifNode
+		effective := false
+		if sc.Events && !m.Poisoned && (op.K == OpSet && m.Work[op.A] == 0 || op.K == OpRemove && m.Work[op.A] != 0) {
+			effective = true
+			before, _ = bptree.VerifDumpWorking(s.T)
+		}
+		res, p := s.Apply(op)
+		if p != nil {
+			report(full, fmt.Sprintf("panic: %v", p))
+			return
+		}
+		if d := m.Step(op, res); d != "" {
+			report(full, d)
+			return
+		}
+		switch {
+		case op.K == OpPrune && res.Err == nil && int64(op.A) >= 0:
+			sink.Outcome("prune_ok")
+		case op.K == OpPrune && wasPruneOK:
+			sink.Outcome("prune_refused_unexpectedly")
+		case op.K == OpPrune:
+			sink.Outcome("prune_refused")
+		case op.K == OpSave && res.Err != nil:
+			sink.Outcome("save_refused")
+		case op.K == OpSave:
+			sink.Outcome("save_ok")
+		case res.Err != nil:
+			sink.Outcome("op_error_expected")
+		default:
+			sink.Outcome("op_ok")
+		}
+		if d := Observe(s, m, sc.Probe, false); d != "" {
+			report(full, d)
+			return
+		}
+		work, err := bptree.VerifDumpWorking(s.T)
 		if err != nil {
-			report(nil, "start state dump: "+err.Error())
-		} else {
-			visited.add(Digest(s0, m0, ShapeString(w0, true)))
-			if d := deepCheck(s0, m0, w0, nil); d != "" {
-				report(nil, "start state: "+d)
+			if !m.Poisoned {
+				report(full, "working tree walk: "+err.Error())
+				return
+			}
+			work = nil
+		}
+		if effective {
+			for _, e := range ClassifyStructural(before, work, sc.U.Keys[op.A], op.K == OpRemove) {
+				sink.Outcome("rebalance:" + e)
 			}
 		}
+		dg := Digest(s, m, ShapeString(work, true), sc.Hidden)
+		isNew := false
+		if !visited.has(dg) {
+			i := int(dg[0]) % shards
+			nmu[i].Lock()
+			old, seen := next[i][dg]
+			if !seen || lessPath(full, old) {
+				next[i][dg] = full
+			}
+			nmu[i].Unlock()
+			isNew = !seen
+		}
+		if isNew {
+			if d := deepCheck(s, m, work, full); d != "" {
+				report(full, d)
+				return
+			}
+		}
+		// deterministic continuation (consumes s and m, which are discarded afterwards anyway)
+		if sc.Tail && (isNew || sc.TailAbandon && abandons) {
+			tails.Add(1)
+			tops, d := sc.RunTail(s, m, pb, func(n int) { tailTrans.Add(int64(n)); sink.EvalN(int64(n)) }, blame, full)
+			if d != "" {
+				report(append(append([]Op(nil), full...), tops...), "[tail] "+d)
+			}
+		}
+		return
+	}
+
+	// level 0
+	if p := vk.Catch(func() {
+		s0, m0, d0 := sc.Start()
+		if d0 != "" {
+			report(nil, "start state: "+d0)
+		} else if d := Observe(s0, m0, sc.Probe, true); d != "" {
+			report(nil, "start state: "+d)
+		} else {
+			w0, err := bptree.VerifDumpWorking(s0.T)
+			if err != nil {
+				report(nil, "start state dump: "+err.Error())
+				return
+			}
+			visited.add(Digest(s0, m0, ShapeString(w0, true), sc.Hidden))
+			if d := deepCheck(s0, m0, w0, nil); d != "" {
+				report(nil, "start state: "+d)
+				return
+			}
+			if sc.Tail {
+				tails.Add(1)
+				var blame []Op
+				tops, d := sc.RunTail(s0, m0, pb, func(n int) { tailTrans.Add(int64(n)); sink.EvalN(int64(n)) }, &blame, nil)
+				if d != "" {
+					report(tops, "[tail] "+d)
+				}
+			}
+		}
+	}); p != nil {
+		report(nil, fmt.Sprintf("start state: panic: %v", p))
 	}
 	st.States = 1
 	frontier := [][]Op{{}}
 	exhaustive := true
 
 	for depth := 0; depth < sc.Depth && len(frontier) > 0 && len(viols) == 0; depth++ {
-		var nmu [shards]sync.Mutex
-		var next [shards]map[[16]byte][]Op
 		for i := range next {
 			next[i] = map[[16]byte][]Op{}
 		}
@@ -419,61 +552,11 @@ func Explore(sink Sink, sc *Scenario, hook Hook) Stats {
 					}
 				}
 				full := append(append(make([]Op, 0, len(path)+1), path...), op)
-				trans.Add(1)
-				sink.Eval()
-				wasPruneOK := op.K == OpPrune && m.PruneShouldSucceed(int64(op.A))
-				res, p := s.Apply(op)
-				if p != nil {
-					report(full, fmt.Sprintf("panic: %v", p))
-					continue
-				}
-				if d := m.Step(op, res); d != "" {
-					report(full, d)
-					continue
-				}
-				switch {
-				case op.K == OpPrune && res.Err == nil && int64(op.A) >= 0:
-					sink.Outcome("prune_ok")
-				case op.K == OpPrune && wasPruneOK:
-					sink.Outcome("prune_refused_unexpectedly")
-				case op.K == OpPrune:
-					sink.Outcome("prune_refused")
-				case op.K == OpSave && res.Err != nil:
-					sink.Outcome("save_refused")
-				case op.K == OpSave:
-					sink.Outcome("save_ok")
-				case res.Err != nil:
-					sink.Outcome("op_error_expected")
-				default:
-					sink.Outcome("op_ok")
-				}
-				if d := Observe(s, m, sc.Probe, false); d != "" {
-					report(full, d)
-					continue
-				}
-				work, err := bptree.VerifDumpWorking(s.T)
-				if err != nil {
-					if !m.Poisoned {
-						report(full, "working tree walk: "+err.Error())
-						continue
-					}
-					work = nil
-				}
-				dg := Digest(s, m, ShapeString(work, true))
-				if visited.has(dg) {
-					continue
-				}
-				i := int(dg[0]) % shards
-				nmu[i].Lock()
-				old, seen := next[i][dg]
-				if !seen || lessPath(full, old) {
-					next[i][dg] = full
-				}
-				nmu[i].Unlock()
-				if !seen {
-					if d := deepCheck(s, m, work, full); d != "" {
-						report(full, d)
-					}
+				// A panic anywhere below (operation, observer, structure walk) is a finding about this history,
+				// never a crash of the check.
+				blame := full
+				if p := vk.Catch(func() { successor(s, m, full, op, &blame) }); p != nil {
+					report(blame, fmt.Sprintf("panic: %v", p))
 				}
 			}
 		})
@@ -504,7 +587,9 @@ func Explore(sink Sink, sc *Scenario, hook Hook) Stats {
 			sink.Violation(v.key, v.detail)
 		}
 	}
-	st.Transitions = trans.Load()
+	st.Transitions = trans.Load() + tailTrans.Load()
+	st.Tails = tails.Load()
+	st.TailTrans = tailTrans.Load()
 	st.Ranges = ranges.Load()
 	st.DeepChecks = deep.Load()
 	st.Underfull = underfull.Load()
